@@ -71,6 +71,13 @@ def stage_build(prop, ctx):
             discharged += 1
         ctx.extra["obligations"] = len(prop.THEOREMS)
         ctx.extra["discharged"] = discharged
+        if ctx.tier == "thorough" and not ctx.broken:
+            # independent re-check of the compiled proofs by the toolchain's external checker
+            mods = [t for t in prop.LAKE_TARGETS]
+            rc, out = core.sh(["lake", "env", "leanchecker"] + mods, cwd=LEAN)
+            if rc != 0:
+                raise Infra("leanchecker rejected {}:\n{}".format(mods, out[-2000:]))
+            ctx.extra["cov_leanchecker"] = "ok: " + " ".join(mods)
 
 
 def finish(prop, ctx, tie_broken_search_done):
